@@ -228,4 +228,22 @@ PLANS = {
                                          "Cr3::write_raw is given 12-bit values; Star::read is checked on contents whose selector sums do not overflow u16"],
         "quick": [{"flavor": "debug", "shards": 4}, {"flavor": "release", "shards": 4}], "thorough": BOTH_T,
     },
+
+    "C19": {
+        "level": "exploration",
+        "rule": "an independently written table (transcribed from the Intel SDM / AMD APM, kept in harness/src/props/c19.rs, never "
+                "derived from the crate) of every public flag, enum value, MSR number, page size and preset: name -> value, compared "
+                "with .bits() / `as u8` / the ECX of a trapped rdmsr at run time (finite, exhaustive). Where the bit can be exercised "
+                "in user mode the real CPU is a second oracle: stc/clc/xor/test/add/std then pushfq for CF/PF/AF/ZF/SF/OF/DF/IF; "
+                "MXCSR status bits after real 0/0, 1/0, overflow, underflow, inexact and denormal operations, rounding control by its "
+                "effect on cvtss2si(+-1.5), FTZ/DAZ by their effect on denormals. Codecs exhaustively: SegmentSelector (all u16 x 4 "
+                "RPL), PrivilegeLevel::from_u16 and Pcid::new (all u16), ExceptionVector/PatMemoryType/DebugAddressRegisterNumber (all "
+                "u8), Dr7Value (4 registers x 4 conditions x 4 sizes x flag subsets; each setter changes only its 2 bits), "
+                "breakpoint condition/size, SelectorErrorCode (all 16-bit codes + wide values). distinct_nontrivial counts distinct "
+                "(profile, constant name / codec) tuples.",
+        "assumptions": COMMON_ASSUME + ["the manual-derived table itself is trusted (it was written from the manuals, then compared: all ~236 entries agree on the unchanged tree)"],
+        "exhaustive_whole": True,
+        "quick": [{"flavor": "debug", "shards": 1}, {"flavor": "release", "shards": 1}],
+        "thorough": [{"flavor": "debug", "shards": 2}, {"flavor": "release", "shards": 2}],
+    },
 }
